@@ -150,6 +150,7 @@ func C12(c *Ctx) {
 		}
 	}
 	c05Rollback(c, "C12.P2.storeMemoryAgreement")
+	c12KeyScope(c)
 	c12Serialisation(c)
 	// P5: reuse the eviction clause of the pairing rule on the bitmap allocator
 	pairRule(c, "C12.P5.moveEvictsReverse", []pairSpec{{"pkg/allocator", "IPAllocator", "allocated", "indexToSubscriber", restoreExempt}})
